@@ -574,17 +574,17 @@ async fn run(plan: &EventsPlan, cx: &mut Cx, only_download: bool) -> Res {
                         // the whole message is refused
                     } else if model.offer(&e).is_some() {
                         let download = policy.as_ref().map(|p| p.selects(&e.k)).unwrap_or(true);
-                        applied.push(Applied { entry: signed.clone(), local: false, from, status: *status, download });
+                        // every entry of the message carries its own content status
+                        applied.push(Applied { entry: signed.clone(), local: false, from, status: ((*status as usize + j) % 3) as u8, download });
                     } else {
                         cx.probe("rejected_superseded");
                     }
                     values.push(signed);
                 }
-                let st = status_of(*status);
                 let mut mm = MMessage::carrying(values);
                 if let crate::msg::MPart::RangeItem(it) = &mut mm.parts[0] {
-                    for v in it.values.iter_mut() {
-                        v.1 = st;
+                    for (j, v) in it.values.iter_mut().enumerate() {
+                        v.1 = status_of(((*status as usize + j) % 3) as u8);
                     }
                 }
                 let msg = mm.to_real();
